@@ -21,6 +21,26 @@ def tol_cond (cond, base = 5e-4):
     return max (base, base * 1e-3 * cond)
 # end def tol_cond
 
+def feed_amp (m):
+    """ largest pulse current over the smallest feed current: a feed impedance V / I is only as exact, relatively,
+        as its feed current, and the method bounds current errors relative to the largest current """
+    I = np.abs (np.asarray (m.current))
+    lo = min (abs (complex (m.current [s.idx])) for s in m.sources)
+    return float (I.max () / max (lo, 1e-300))
+# end def feed_amp
+
+IMP_KEY = 'impedance-at-current-minimum'
+
+def imp_key (rel, tol, amp):
+    """ mechanism key of an impedance deviation: None (within the stated tolerance), the known finding (feed near a
+        current minimum and the deviation is that of a current error within the tolerance), or 'impedance' """
+    if rel <= tol:
+        return None
+    if amp > 3 and rel <= tol * amp:
+        return IMP_KEY
+    return 'impedance'
+# end def imp_key
+
 def min_seg (m):
     return min (s.seg_len for g in m.geo for s in g.segments)
 # end def min_seg
